@@ -256,6 +256,10 @@ fn c04_patch_block_roundtrip_len128() { patch_block_roundtrip::<128, 300>(); }
 #[kani::proof]
 #[kani::unwind(260)]
 fn c04_patch_block_roundtrip_len240() { patch_block_roundtrip::<240, 500>(); }
+/// one more length chosen by VERIF_SEED (gen/params.rs)
+#[kani::proof]
+#[kani::unwind(260)]
+fn c04_patch_block_roundtrip_seeded_len() { patch_block_roundtrip::<{ crate::verif_support::params::PATCH_BLOCK_LEN }, 500>(); }
 
 #[kani::proof]
 #[kani::unwind(6)]
